@@ -228,6 +228,40 @@ fn arbitrary_driver(seed: u64, n: u64, out: &str) -> i32 {
         }
         inputs.insert(k * 2 % (inputs.len().max(1)), v);
     }
+    // maximal requests and single-position sweeps over them: a stream of 0x01 bytes makes every
+    // option Some, every list and string as long as its capacity allows; a 4-byte selector picks
+    // the request variant; then each position in turn is replaced by a few other values, so that
+    // every decision point of the generators (selectors, list lengths, string lengths, trailing
+    // members) is varied one at a time
+    let mut sweeps: Vec<Vec<u8>> = vec![];
+    let budget = (n / 3) as usize;
+    let selectors: Vec<[u8; 4]> = (0..10u64).map(|k| (((k << 32) / 10 + 1) as u32).to_le_bytes()).collect();
+    let vals: [u8; 6] = [0x00, 0x02, 0x03, 0x80, 0xC3, 0xFF];
+    'outer: for (si, sel) in selectors.iter().enumerate() {
+        for fill in [0x01u8, 0x03, 0x61] {
+            let mut base = sel.to_vec();
+            base.extend(std::iter::repeat(fill).take(3000));
+            sweeps.push(base.clone());
+            // the text-bearing variants (MakeCredential = 0, GetAssertion = 1) get the position sweep
+            if si <= 1 && fill == 0x01 {
+                let stride = 1 + (3000 * vals.len() * 2) / budget.max(1);
+                let mut p = 4;
+                while p < 3000 {
+                    for v in vals {
+                        let mut b = base.clone();
+                        b[p] = v;
+                        sweeps.push(b);
+                        if sweeps.len() >= budget { break 'outer; }
+                    }
+                    p += stride;
+                }
+            }
+        }
+    }
+    for (k, v) in sweeps.into_iter().enumerate() {
+        let at = (k * 3) % (inputs.len().max(1));
+        inputs.insert(at, v);
+    }
     let mut line = 0u64;
     for data in inputs.iter().take(n as usize) {
         for g in gens {
